@@ -1,11 +1,13 @@
 (* Proofs about `llfree_get` of the sequential upper-allocator model (Upper.v). *)
 From LLF Require Import Base Row Bitfield Lower Spec Sorted Upper UpperInvDef LowerFacts UpperPrims UpperGetLoops.
+From Coq Require Import Permutation PeanoNat.
 
 Ltac inv H := inversion H; subst; clear H.
 
 (* keep the kernel from unrolling the fuel-driven loops when it checks conversions at Qed *)
-Local Strategy 1000 [locals_steal_any locals_demote_any steal_any_loop demote_any_loop steal_slots demote_slots
-  get_local search_best sb_loop sb_try search_loop lower_get_opt lower_get lower_get_at lget_low
+Local Strategy 900 [locals_steal_any locals_demote_any search_best].
+Local Strategy 1000 [steal_any_loop demote_any_loop steal_slots demote_slots
+  get_local sb_loop sb_try search_loop lower_get_opt lower_get lower_get_at lget_low
   trees_put trees_sync trees_steal trees_reserve_or_steal trees_unreserve
   locals_get locals_put locals_swap locals_set_start].
 Local Strategy 500 [steal_global reserve_or_steal steal_local demote_local].
@@ -364,3 +366,1374 @@ Proof.
   - vm_compute. reflexivity.
   - eexists _, _, _. split; [vm_compute; reflexivity|]. split; vm_compute; reflexivity.
 Qed.
+
+(* ============================================================================================== *)
+(* Frame facts (no invariant needed): the configuration of the locals (which classes exist, how many
+   slots), the default class and the number of trees never change; only `lget_low` touches `low`. *)
+Lemma map_upd {A B} (f : A -> B) l i x : map f (upd l i x) = upd (map f l) i (f x).
+Proof. revert i; induction l; destruct i; cbn; auto. f_equal; auto. Qed.
+Lemma upd_same {A} (l : list A) i x : nth_error l i = Some x -> upd l i x = l.
+Proof. revert i; induction l; destruct i; cbn; intros H; try discriminate; [inv H; auto|f_equal; auto]. Qed.
+
+Section Frame.
+  Variable g : geom.
+  Variable policy : N -> N -> N -> pol.
+
+  Definition shape (u : upper) : list (option nat) := map (option_map (@length slot)) (locals u).
+  Definition frame_rel (u u' : upper) : Prop :=
+    shape u' = shape u /\ dflt u' = dflt u /\ length (trees u') = length (trees u).
+
+  Lemma frame_refl u : frame_rel u u.
+  Proof. unfold frame_rel; auto. Qed.
+  Lemma frame_trans u1 u2 u3 : frame_rel u1 u2 -> frame_rel u2 u3 -> frame_rel u1 u3.
+  Proof. unfold frame_rel. intuition congruence. Qed.
+
+  Lemma shape_class_locals u u' c : shape u' = shape u -> class_locals u' c = class_locals u c.
+  Proof.
+    unfold shape, class_locals, class_slots. intros H.
+    assert (E : nth_error (map (option_map (@length slot)) (locals u')) (nn c)
+              = nth_error (map (option_map (@length slot)) (locals u)) (nn c)) by (rewrite H; reflexivity).
+    rewrite !nth_error_map in E.
+    destruct (nth_error (locals u') (nn c)) as [[l'|]|], (nth_error (locals u) (nn c)) as [[l|]|];
+      cbn in *; try congruence.
+  Qed.
+
+  Lemma frame_ntrees u u' : frame_rel u u' -> ntrees u' = ntrees u.
+  Proof. unfold frame_rel, ntrees. intros (_ & _ & ->). reflexivity. Qed.
+
+  Lemma set_slot_frame u c j s : frame_rel u (set_slot u c j s).
+  Proof.
+    unfold frame_rel, set_slot. destruct (class_slots u c) as [l|] eqn:E; auto.
+    unfold with_locals. cbn [locals dflt trees]. split; auto. unfold shape. cbn [locals].
+    rewrite map_upd. cbn [option_map]. rewrite upd_length. apply upd_same.
+    rewrite nth_error_map. unfold class_slots in E.
+    destruct (nth_error (locals u) (nn c)) as [[l0|]|]; inv E. reflexivity.
+  Qed.
+  Lemma set_tree_frame u i t : frame_rel u (set_tree u i t).
+  Proof. unfold frame_rel, set_tree. cbn. rewrite upd_length. auto. Qed.
+  Lemma with_low_frame u l : frame_rel u (with_low u l).
+  Proof. unfold frame_rel. cbn. auto. Qed.
+
+  Ltac t_prim := repeat match goal with
+    | H : (_, _) = (_, _) |- _ => inv H
+    | |- frame_rel ?u ?u => apply frame_refl
+    | |- frame_rel ?u (set_tree ?u _ _) => apply set_tree_frame
+    | |- frame_rel ?u (set_slot ?u _ _ _) => apply set_slot_frame
+    | H : match ?x with _ => _ end = _ |- _ => destruct x eqn:?
+    end.
+
+  Lemma trees_put_frame u i n r u' : trees_put g policy u i n = (r, u') -> frame_rel u u'.
+  Proof. unfold trees_put. intros; t_prim. Qed.
+  Lemma trees_sync_frame u i n r u' : trees_sync u i n = (r, u') -> frame_rel u u'.
+  Proof. unfold trees_sync. intros; t_prim. Qed.
+  Lemma trees_steal_frame u i c n r u' : trees_steal policy u i c n = (r, u') -> frame_rel u u'.
+  Proof. unfold trees_steal. intros; t_prim. Qed.
+  Lemma trees_reserve_or_steal_frame u i c n r u' : trees_reserve_or_steal policy u i c n = (r, u') -> frame_rel u u'.
+  Proof. unfold trees_reserve_or_steal. intros; t_prim. Qed.
+  Lemma trees_unreserve_frame u i n c r u' : trees_unreserve g policy u i n c = (r, u') -> frame_rel u u'.
+  Proof. unfold trees_unreserve. intros; t_prim. Qed.
+  Lemma locals_get_frame u c j t n r u' : locals_get g u c j t n = (r, u') -> frame_rel u u'.
+  Proof. unfold locals_get. intros; t_prim. Qed.
+  Lemma locals_put_frame u c j t n r u' : locals_put g u c j t n = (r, u') -> frame_rel u u'.
+  Proof. unfold locals_put. intros; t_prim. Qed.
+  Lemma locals_swap_frame u c j t n r u' : locals_swap g u c j t n = (r, u') -> frame_rel u u'.
+  Proof. unfold locals_swap. intros; t_prim. Qed.
+  Lemma locals_set_start_frame u c j row r u' : locals_set_start g u c j row = (r, u') -> frame_rel u u'.
+  Proof. unfold locals_set_start. intros; t_prim. Qed.
+  Lemma lget_low_frame u row k fr r u' : lget_low g u row k fr = (r, u') -> frame_rel u u'.
+  Proof. unfold lget_low. destruct (lower_get_opt g (low u) row k fr). intros H; inv H. apply with_low_frame. Qed.
+
+  Lemma steal_slots_frame n : forall u tc index len tree free j r u',
+    steal_slots g u tc index len tree free j n = Some (r, u') -> frame_rel u u'.
+  Proof.
+    induction n as [|n IH]; intros u tc index len tree free j r u' H; cbn [steal_slots] in H; [discriminate|].
+    destruct (locals_get g u tc ((index + j) mod len) tree free) as [[row|rv| |s] u1] eqn:E;
+      try (inv H; eapply locals_get_frame; eauto; fail); eauto.
+  Qed.
+
+  Lemma steal_any_loop_frame n : forall u class index tree free i r u',
+    steal_any_loop g policy u class index tree free i n = (r, u') -> frame_rel u u'.
+  Proof.
+    induction n as [|n IH]; intros u class index tree free i r u' H; cbn [steal_any_loop] in H.
+    - inv H. apply frame_refl.
+    - destruct (class_slots u ((i + class) mod 8)) as [l|]; [|eauto].
+      destruct (policy class ((i + class) mod 8) free); eauto;
+      destruct (steal_slots g u ((i + class) mod 8) index (N.of_nat (length l)) tree free 0 (length l))
+        as [[[row|?| |?] u1]|] eqn:E; eauto; inv H; eapply steal_slots_frame; eauto.
+  Qed.
+
+  Lemma demote_slots_frame n : forall u class tc local len tree free j r u',
+    demote_slots g u class tc local len tree free j n = Some (r, u') -> frame_rel u u'.
+  Proof.
+    induction n as [|n IH]; intros u class tc local len tree free j r u' H; cbn [demote_slots] in H; [discriminate|].
+    destruct (class_slots u tc) as [l|]; [|discriminate].
+    destruct (nth_error l _) as [old|]; [|inv H; apply frame_refl].
+    destruct (slot_get g old tree free) as [new|]; [|eauto].
+    destruct local as [lc|].
+    - destruct (class_slots (set_slot u tc _ slot_none) class) as [ml|]; [|inv H; apply set_slot_frame].
+      destruct (nth_error ml (nn lc)); inv H; [|apply set_slot_frame].
+      eapply frame_trans; apply set_slot_frame.
+    - inv H. apply set_slot_frame.
+  Qed.
+
+  Lemma demote_any_loop_frame n : forall u class local tree free i r u',
+    demote_any_loop g policy u class local tree free i n = (r, u') -> frame_rel u u'.
+  Proof.
+    induction n as [|n IH]; intros u class local tree free i r u' H; cbn [demote_any_loop] in H.
+    - inv H. apply frame_refl.
+    - destruct (class_slots u ((i + class) mod 8)) as [l|]; [|eauto].
+      destruct (policy class ((i + class) mod 8) free); eauto.
+      destruct (demote_slots g u class ((i + class) mod 8) local (N.of_nat (length l)) tree free 0 (length l))
+        as [[[x|?|?] u1]|] eqn:E; eauto; inv H; eapply demote_slots_frame; eauto.
+  Qed.
+
+  Lemma locals_steal_any_frame u c idx t n r u' : locals_steal_any g policy u c idx t n = (r, u') -> frame_rel u u'.
+  Proof. apply steal_any_loop_frame. Qed.
+  Lemma locals_demote_any_frame u c l t n r u' : locals_demote_any g policy u c l t n = (r, u') -> frame_rel u u'.
+  Proof.
+    unfold locals_demote_any. destruct (class_slots u c); [apply demote_any_loop_frame|].
+    intros H; inv H. apply frame_refl.
+  Qed.
+
+  (* consume an equation about a primitive / helper into a frame fact *)
+  Ltac fr_of E :=
+    first [ apply trees_put_frame in E | apply trees_sync_frame in E | apply trees_steal_frame in E
+          | apply trees_reserve_or_steal_frame in E | apply trees_unreserve_frame in E
+          | apply locals_get_frame in E | apply locals_put_frame in E | apply locals_swap_frame in E
+          | apply locals_set_start_frame in E | apply lget_low_frame in E
+          | apply locals_steal_any_frame in E | apply locals_demote_any_frame in E ].
+  Ltac fr_done :=
+    repeat match goal with E : _ = (_, _) |- _ => fr_of E end;
+    repeat match goal with H : (_, _) = (_, _) |- _ => inv H end;
+    repeat match goal with H : frame_rel _ _ |- _ => unfold frame_rel in H end;
+    unfold frame_rel; intuition congruence.
+  Ltac fr_step :=
+    match goal with
+    | H : match ?x with _ => _ end = (_, _) |- _ =>
+        let E := fresh "E" in destruct x eqn:E; try (fr_of E)
+    | H : lift ?x _ = (_, _) |- _ => unfold lift in H
+    end.
+
+  Lemma steal_global_frame u i c k fr r u' : steal_global g policy u i c k fr = (r, u') -> frame_rel u u'.
+  Proof. unfold steal_global. intros H. repeat fr_step; fr_done. Qed.
+
+  Lemma reserve_or_steal_frame u i k c l r u' : reserve_or_steal g policy u i k c l = (r, u') -> frame_rel u u'.
+  Proof. unfold reserve_or_steal. intros H. repeat fr_step; fr_done. Qed.
+
+  Lemma steal_local_frame u rq fr r u' : steal_local g policy u rq fr = (r, u') -> frame_rel u u'.
+  Proof. unfold steal_local. intros H. repeat fr_step; fr_done. Qed.
+
+  Lemma demote_local_frame u rq fr r u' : demote_local g policy u rq fr = (r, u') -> frame_rel u u'.
+  Proof. unfold demote_local. intros H. repeat fr_step; fr_done. Qed.
+
+  Lemma get_local_frame fuel : forall u k c l fr sync r u',
+    get_local g policy fuel u k c l fr sync = (r, u') -> frame_rel u u'.
+  Proof.
+    induction fuel as [|fuel IH]; intros u k c l fr sync r u' H; cbn [get_local] in H.
+    - inv H. apply frame_refl.
+    - repeat fr_step; try fr_done.
+      apply IH in H. fr_done.
+  Qed.
+
+  (* ----- nothing but lget_low touches `low` ----- *)
+  Ltac l_prim := repeat match goal with
+    | H : (_, _) = (_, _) |- _ => inv H
+    | |- low ?u = low ?u => reflexivity
+    | |- low (set_tree ?u _ _) = low ?u => reflexivity
+    | |- low (set_slot ?u ?c ?j ?s) = low ?u => unfold set_slot; destruct (class_slots u c); reflexivity
+    | H : match ?x with _ => _ end = _ |- _ => destruct x eqn:?
+    end.
+  Lemma set_slot_low' u c j s : low (set_slot u c j s) = low u.
+  Proof. unfold set_slot; destruct (class_slots u c); reflexivity. Qed.
+  Lemma trees_put_low u i n r u' : trees_put g policy u i n = (r, u') -> low u' = low u.
+  Proof. unfold trees_put. intros; l_prim. Qed.
+  Lemma trees_sync_low u i n r u' : trees_sync u i n = (r, u') -> low u' = low u.
+  Proof. unfold trees_sync. intros; l_prim. Qed.
+  Lemma trees_steal_low u i c n r u' : trees_steal policy u i c n = (r, u') -> low u' = low u.
+  Proof. unfold trees_steal. intros; l_prim. Qed.
+  Lemma trees_reserve_or_steal_low u i c n r u' : trees_reserve_or_steal policy u i c n = (r, u') -> low u' = low u.
+  Proof. unfold trees_reserve_or_steal. intros; l_prim. Qed.
+  Lemma trees_unreserve_low u i n c r u' : trees_unreserve g policy u i n c = (r, u') -> low u' = low u.
+  Proof. unfold trees_unreserve. intros; l_prim. Qed.
+  Lemma locals_get_low u c j t n r u' : locals_get g u c j t n = (r, u') -> low u' = low u.
+  Proof. unfold locals_get. intros; l_prim. Qed.
+  Lemma locals_put_low u c j t n r u' : locals_put g u c j t n = (r, u') -> low u' = low u.
+  Proof. unfold locals_put. intros; l_prim. Qed.
+  Lemma locals_swap_low u c j t n r u' : locals_swap g u c j t n = (r, u') -> low u' = low u.
+  Proof. unfold locals_swap. intros; l_prim. Qed.
+  Lemma locals_set_start_low u c j row r u' : locals_set_start g u c j row = (r, u') -> low u' = low u.
+  Proof. unfold locals_set_start. intros; l_prim. Qed.
+End Frame.
+
+(* ============================================================================================== *)
+(* structure of steal_any / demote_any (no invariant): what a result means in terms of one
+   `locals_get` / `slot_get` on the unchanged initial state *)
+Section AnyStruct.
+  Variable g : geom.
+  Variable policy : N -> N -> N -> pol.
+
+  Lemma steal_slots_inv n : forall u tc index len tree free j lr u',
+    0 < len ->
+    steal_slots g u tc index len tree free j n = Some (lr, u') ->
+    exists jj, jj < len /\ locals_get g u tc jj tree free = (lr, u') /\
+               ((exists row, lr = LRow row) \/ (exists s, lr = LPanic s)).
+  Proof.
+    induction n as [|n IH]; intros u tc index len tree free j lr u' Hlen H; cbn [steal_slots] in H;
+      [discriminate|].
+    destruct (locals_get g u tc ((index + j) mod len) tree free) as [[row|rv| |s] u1] eqn:E; eauto.
+    - inv H. exists ((index + j) mod len). split; [apply N.mod_lt; lia|]. split; eauto.
+    - inv H. exists ((index + j) mod len). split; [apply N.mod_lt; lia|]. split; eauto.
+  Qed.
+
+  Lemma steal_any_loop_inv n : forall u class index tree free i r u',
+    steal_any_loop g policy u class index tree free i n = (r, u') ->
+    (r = Ok None /\ u' = u) \/
+    exists tc jj l lr, class_slots u tc = Some l /\ jj < N.of_nat (length l) /\
+      (pol_is_match (policy class tc free) = true \/ policy class tc free = PSteal) /\
+      locals_get g u tc jj tree free = (lr, u') /\
+      ((exists row, lr = LRow row /\ r = Ok (Some {| rv_row := row; rv_class := tc; rv_free := 0 |})) \/
+       (exists s, lr = LPanic s /\ r = Panic s)).
+  Proof.
+    induction n as [|n IH]; intros u class index tree free i r u' H; cbn [steal_any_loop] in H.
+    - inv H. auto.
+    - destruct (class_slots u ((i + class) mod 8)) as [l|] eqn:EC; [|eauto].
+      assert (Hgo : forall (Hp : pol_is_match (policy class ((i + class) mod 8) free) = true \/
+                                 policy class ((i + class) mod 8) free = PSteal),
+        match steal_slots g u ((i + class) mod 8) index (N.of_nat (length l)) tree free 0 (length l) with
+        | Some (LRow row, u'0) =>
+            (Ok (Some {| rv_row := row; rv_class := (i + class) mod 8; rv_free := 0 |}), u'0)
+        | Some (LPanic s, u'0) => (Panic s, u'0)
+        | _ => steal_any_loop g policy u class index tree free (i + 1) n
+        end = (r, u') ->
+        (r = Ok None /\ u' = u) \/
+        exists tc jj l lr, class_slots u tc = Some l /\ jj < N.of_nat (length l) /\
+          (pol_is_match (policy class tc free) = true \/ policy class tc free = PSteal) /\
+          locals_get g u tc jj tree free = (lr, u') /\
+          ((exists row, lr = LRow row /\ r = Ok (Some {| rv_row := row; rv_class := tc; rv_free := 0 |})) \/
+           (exists s, lr = LPanic s /\ r = Panic s))).
+      { intros Hp H0.
+        destruct (steal_slots g u ((i + class) mod 8) index (N.of_nat (length l)) tree free 0 (length l))
+          as [[lr u1]|] eqn:ES; [|eauto].
+        destruct l as [|s0 l0]; [cbn [length steal_slots] in ES; discriminate|].
+        apply steal_slots_inv in ES; [|cbn [length]; lia].
+        destruct ES as (jj & Hjj & Hget & Hk).
+        destruct Hk as [[row ->]|[s ->]]; inv H0; right;
+          exists ((i + class) mod 8), jj, (s0 :: l0); eexists; splits; eauto. }
+      destruct (policy class ((i + class) mod 8) free) eqn:Ep; eauto.
+  Qed.
+
+  (* the first slot of class tc (in search order) that can serve the request is emptied ... *)
+  Definition demote_result (u : upper) (class tc : N) (local : option N) (idx : N) (new : slot)
+             (r : res (N * option reservation)) (u' : upper) : Prop :=
+    let u1 := set_slot u tc idx slot_none in
+    match local with
+    | Some lc =>
+        match slot_at u1 class lc with
+        | Some o2 => r = Ok (s_row new, if s_pres o2 then Some (slot_resv o2 class) else None) /\
+                     u' = set_slot u1 class lc new
+        | None => exists s, r = Panic s
+        end
+    | None => r = Ok (s_row new, Some (slot_resv new class)) /\ u' = u1
+    end.
+
+  Lemma demote_slots_inv n : forall u class tc local l tree free j r u',
+    class_slots u tc = Some l -> (0 < length l)%nat ->
+    demote_slots g u class tc local (N.of_nat (length l)) tree free j n = Some (r, u') ->
+    exists idx old new, slot_at u tc idx = Some old /\ slot_get g old tree free = Some new /\
+                        demote_result u class tc local idx new r u'.
+  Proof.
+    induction n as [|n IH]; intros u class tc local l tree free j r u' HC Hl H; cbn [demote_slots] in H;
+      [discriminate|].
+    rewrite HC in H.
+    set (idx := (match local with Some i => i | None => 0 end + j) mod N.of_nat (length l)) in *.
+    assert (Hidx : idx < N.of_nat (length l)) by (apply N.mod_lt; lia).
+    destruct (nth_error l (nn idx)) as [old|] eqn:En.
+    2:{ apply nth_error_None in En. unfold nn in En. lia. }
+    destruct (slot_get g old tree free) as [new|] eqn:Eg; [|eauto].
+    exists idx, old, new. split; [unfold slot_at; rewrite HC; exact En|]. split; [exact Eg|].
+    unfold demote_result. cbv zeta. destruct local as [lc|].
+    - unfold slot_at. destruct (class_slots (set_slot u tc idx slot_none) class) as [ml|]; [|inv H; eauto].
+      destruct (nth_error ml (nn lc)) as [o2|]; inv H; eauto.
+    - inv H. auto.
+  Qed.
+
+  Lemma demote_any_loop_inv n : forall u class local tree free i r u',
+    demote_any_loop g policy u class local tree free i n = (r, u') ->
+    (r = Ok None /\ u' = u) \/
+    exists tc idx old new r0, policy class tc free = PDemote /\
+      slot_at u tc idx = Some old /\ slot_get g old tree free = Some new /\
+      demote_result u class tc local idx new r0 u' /\
+      r = match r0 with Ok a => Ok (Some a) | Err e => Err e | Panic s => Panic s end.
+  Proof.
+    induction n as [|n IH]; intros u class local tree free i r u' H; cbn [demote_any_loop] in H.
+    - inv H. auto.
+    - destruct (class_slots u ((i + class) mod 8)) as [l|] eqn:EC; [|eauto].
+      destruct (policy class ((i + class) mod 8) free) eqn:Ep; eauto.
+      destruct (demote_slots g u class ((i + class) mod 8) local (N.of_nat (length l)) tree free 0 (length l))
+        as [[r0 u1]|] eqn:ES; [|eauto].
+      destruct l as [|s0 l0]; [cbn [length demote_slots] in ES; discriminate|].
+      apply demote_slots_inv in ES; [|exact EC|cbn [length]; lia].
+      destruct ES as (idx & old & new & H1 & H2 & H3).
+      right. exists ((i + class) mod 8), idx, old, new, r0.
+      destruct r0; inv H; splits; auto.
+  Qed.
+
+  Lemma locals_demote_any_inv u class local tree free r u' :
+    locals_demote_any g policy u class local tree free = (r, u') ->
+    (r = Ok None /\ u' = u) \/
+    (class_slots u class <> None /\
+     exists tc idx old new r0, policy class tc free = PDemote /\
+      slot_at u tc idx = Some old /\ slot_get g old tree free = Some new /\
+      demote_result u class tc local idx new r0 u' /\
+      r = match r0 with Ok a => Ok (Some a) | Err e => Err e | Panic s => Panic s end).
+  Proof.
+    unfold locals_demote_any. destruct (class_slots u class) eqn:E.
+    - intros H. apply demote_any_loop_inv in H. destruct H as [H|H]; [auto|right]. split; [congruence|exact H].
+    - intros H; inv H. auto.
+  Qed.
+End AnyStruct.
+
+(* ============================================================================================== *)
+(* The invariant through `llfree_get` (C09), the lift of the lower allocator's specification (C02)
+   and the "visible frames" bound (C15), all carried by one postcondition `get_post` / `GP` that every
+   allocation attempt of the cascade satisfies:
+     Ok (f, c): UpperInv again, (f, order) was enabled in the ownership state and is now allocated,
+                a targeted request got its frame, and the tree of f had 2^order visible free frames;
+     Err e    : e = EMemory, UpperInv again, and `low` is unchanged (so the next attempt starts from the
+                same ownership state);
+     Panic    : impossible. *)
+Section GetInv.
+  Variable g : geom.
+  Variable policy : N -> N -> N -> pol.
+  Hypothesis WF : wf_geom g.
+  Hypothesis LF : lower_facts g.
+  Hypothesis PR : pol_refl_match policy.
+  Hypothesis PT : pol_demote_trans policy.
+  Notation TF := (TF g).
+  Notation UIC := (UpperInvC g policy).
+  Notation Inv := (UpperInv g policy).
+
+  Definition cr0 : N -> N := fun _ => 0.
+  Definition crd (t n : N) : N -> N := fun j => delta j t n.
+
+  Lemma Inv_UIC x : Inv x <-> UIC cr0 [] x.
+  Proof. apply UpperInv_C0. Qed.
+
+  Lemma mk_mk x u1 u2 : mk (mk x u1) u2 = mk x u2.
+  Proof. reflexivity. Qed.
+  Lemma us_mk x u : us (mk x u) = u.
+  Proof. reflexivity. Qed.
+  Lemma off_mk x u : off (mk x u) = off x.
+  Proof. reflexivity. Qed.
+
+  (* ----- frame facts on the configuration ----- *)
+  Lemma frame_class_slots u u' c : frame_rel u u' -> (class_slots u' c <> None <-> class_slots u c <> None).
+  Proof.
+    intros (Hs & _). pose proof (shape_class_locals u u' c Hs) as E. unfold class_locals in E.
+    destruct (class_slots u' c), (class_slots u c); cbn in E; try discriminate; split; congruence.
+  Qed.
+  Lemma frame_idx_ok u u' c j : frame_rel u u' -> idx_ok u c j -> idx_ok u' c j.
+  Proof.
+    intros (Hs & _) H l' Hl'. pose proof (shape_class_locals u u' c Hs) as E. unfold class_locals in E.
+    rewrite Hl' in E. destruct (class_slots u c) as [l|] eqn:El; cbn in E; [|discriminate].
+    inv E. specialize (H l El). lia.
+  Qed.
+  Lemma frame_class_locals u u' c : frame_rel u u' -> class_locals u' c = class_locals u c.
+  Proof. intros (Hs & _). apply shape_class_locals. exact Hs. Qed.
+
+  (* ----- the class of an in-hand reservation may be replaced by any class that keeps the tree ----- *)
+  Lemma UIC_ih_class cr t c c' f ih x :
+    UIC cr ((t, c, f) :: ih) x -> class_slots (us x) c' <> None ->
+    (forall tr, tree_at (us x) t = Some tr -> forall f', pol_keeps (policy c' (t_class tr) f') = true) ->
+    UIC cr ((t, c', f) :: ih) x.
+  Proof.
+    intros (H1 & H2 & H3 & H4 & H5 & H6 & H7 & H8) Hc Hk.
+    unfold UpperInvC. cbv zeta. splits; auto.
+    - intros i tr Hi. destruct (H6 i tr Hi) as (A & B & C & D & F). unfold tree_okC. cbv zeta.
+      rewrite ih_of_cons in *. destruct (t =? N.of_nat i) eqn:Et; cbn [length ih_sum fold_right snd] in *;
+        splits; auto.
+      + intros c0 f0 [Q|Q] f'.
+        * inv Q. apply Hk. unfold tree_at, nn. rewrite Nat2N.id. exact Hi.
+        * eapply F. right. exact Q.
+      + intros c0 f0 [Q|Q] f'.
+        * inv Q. rewrite N.eqb_refl in Et. discriminate.
+        * eapply F. right. exact Q.
+    - intros t0 c0 f0 [Q|Q].
+      + inv Q. split; [|exact Hc]. eapply (H8 t0 c f0). left. reflexivity.
+      + eapply H8. right. exact Q.
+  Qed.
+
+  (* ----- one lower attempt that is paid for by a credit on tree T ----- *)
+  Lemma attempt_G ih x1 T k row frame r u2 :
+    UIC (crd T (pow2 k)) ih x1 -> T < ntrees (us x1) -> (k <= tord g)%nat ->
+    match frame with
+    | None => row_tree g row = T
+    | Some f => f / TF = T /\ aligned f k = true /\ f + pow2 k <= frames (low (us x1))
+    end ->
+    lget_low g (us x1) row k frame = (r, u2) ->
+    pow2 k + nth (nn T) (off x1) 0 <= tree_free g (low (us x1)) T /\
+    match r with
+    | Ok f => UIC cr0 ih (mk x1 u2) /\ f / TF = T /\
+              spec_get_enabled (abs g (low (us x1))) f k = true /\
+              abs g (low u2) = spec_get g (abs g (low (us x1))) f k /\
+              (forall f0, frame = Some f0 -> f = f0)
+    | Err e => e = EMemory /\ u2 = us x1 /\
+               forall rp u3, trees_put g policy u2 T (pow2 k) = (rp, u3) ->
+                             rp = Ok tt /\ UIC cr0 ih (mk x1 u3) /\ low u3 = low (us x1)
+    | Panic _ => False
+    end.
+  Proof.
+    intros H HT Hk Hfr Hg.
+    destruct (tree_at_some _ _ HT) as (tr & Htr).
+    pose proof (UIC_tree g policy WF LF _ _ _ _ _ H Htr) as Hok.
+    apply (tree_okC_nn g policy WF LF) in Hok. destruct Hok as (_ & B & _).
+    split.
+    { unfold crd, delta in B. rewrite N.eqb_refl in B. lia. }
+    pose proof (UIC_lower g policy WF LF _ _ _ H) as HL.
+    pose proof (UIC_ntrees g policy WF LF _ _ _ H) as Hnt.
+    assert (Hpre : match frame with
+                   | None => row_tree g row < ntab g (frames (low (us x1)))
+                   | Some f => aligned f k = true /\ f + pow2 k <= frames (low (us x1)) end).
+    { destruct frame as [f|]; [tauto|]. rewrite Hfr, <- Hnt. exact HT. }
+    pose proof (lget_low_spec g LF _ _ _ _ _ _ HL Hk Hpre Hg) as (Hu2 & Hs).
+    destruct r as [f|e|s]; [| |exact Hs].
+    - destruct Hs as (H0 & H1 & H2 & H3 & H4 & H5).
+      assert (HfT : f / TF = T).
+      { destruct frame as [f0|]; [subst f; tauto|]. rewrite H0. exact Hfr. }
+      splits; auto.
+      + rewrite Hu2. apply UIC_with_low with (cr := crd T (pow2 k)); auto.
+        intros t _. specialize (H5 t). rewrite HfT in H5. unfold crd, cr0. lia.
+      + intros f0 Ef. subst frame. exact H0.
+    - destruct Hs as (-> & -> & _). splits; auto.
+      intros rp u3 Hp.
+      assert (Hc1 : pow2 k <= crd T (pow2 k) T) by (unfold crd, delta; rewrite N.eqb_refl; lia).
+      assert (Hc2 : forall j, cr0 j + delta j T (pow2 k) = crd T (pow2 k) j) by (intros j; unfold crd, cr0; lia).
+      destruct (trees_put_C g policy WF LF (crd T (pow2 k)) cr0 ih x1 T (pow2 k) rp u3 H HT Hc1 Hc2 Hp)
+        as (Hr & Hi & Hex).
+      splits; auto.
+      destruct Hex as (t & t' & _ & _ & _ & _ & ->). reflexivity.
+  Qed.
+
+  (* ----- the common postcondition of every allocation attempt made for one request ----- *)
+  Definition get_post (x : ustate) (k : nat) (frame : option N) (r : res (N * N)) (u' : upper) : Prop :=
+    match r with
+    | Ok (f, _) => Inv (mk x u') /\ spec_get_enabled (abs g (low (us x))) f k = true /\
+                   abs g (low u') = spec_get g (abs g (low (us x))) f k /\
+                   (forall f0, frame = Some f0 -> f = f0) /\
+                   pow2 k + nth (nn (f / TF)) (off x) 0 <= tree_free g (low (us x)) (f / TF)
+    | Err e => e = EMemory /\ Inv (mk x u') /\ low u' = low (us x)
+    | Panic _ => False
+    end.
+
+  Lemma get_post_chain x k frame u1 r u' :
+    low u1 = low (us x) -> get_post (mk x u1) k frame r u' -> get_post x k frame r u'.
+  Proof.
+    intros Hl. unfold get_post. destruct r as [[f c]|e|s]; cbn [us off mk]; rewrite ?Hl; auto.
+  Qed.
+
+  Lemma get_post_err x k frame : Inv x -> get_post x k frame (Err EMemory) (us x).
+  Proof. intros H. unfold get_post. rewrite mk_id. auto. Qed.
+
+  Definition frame_in (u : upper) (k : nat) (frame : option N) (T : N) : Prop :=
+    forall f, frame = Some f -> f / TF = T /\ aligned f k = true /\ f + pow2 k <= frames (low u).
+
+  Lemma frame_in_attempt u k frame T row :
+    frame_in u k frame T -> (frame = None -> row_tree g row = T) ->
+    match frame with
+    | None => row_tree g row = T
+    | Some f => f / TF = T /\ aligned f k = true /\ f + pow2 k <= frames (low u)
+    end.
+  Proof. intros H1 H2. destruct frame; auto. Qed.
+
+  (* after a credit of 2^k on tree T has been obtained: the lower attempt and, if it fails, the refund *)
+  Lemma pay_G x u1 T k row frame c :
+    UIC (crd T (pow2 k)) [] (mk x u1) -> low u1 = low (us x) -> T < ntrees u1 -> (k <= tord g)%nat ->
+    frame_in (us x) k frame T -> (frame = None -> row_tree g row = T) ->
+    forall r u',
+    match lget_low g u1 row k frame with
+    | (Ok f, u2) => (Ok (f, c), u2)
+    | (Err e, u2) => lift (trees_put g policy u2 T (pow2 k)) (fun _ u3 => (Err e, u3))
+    | (Panic s, u2) => (Panic s, u2)
+    end = (r, u') -> get_post x k frame r u'.
+  Proof.
+    intros H Hl HT Hk Hfr Hrow r u' Hr.
+    destruct (lget_low g u1 row k frame) as [r2 u2] eqn:Eg.
+    assert (Hfr' : frame_in (us (mk x u1)) k frame T) by (unfold frame_in in *; cbn [us mk]; rewrite Hl; exact Hfr).
+    pose proof (attempt_G [] (mk x u1) T k row frame r2 u2 H HT Hk (frame_in_attempt _ _ _ _ _ Hfr' Hrow) Eg)
+      as (Hb & Hs).
+    cbn [us mk off] in Hb, Hs. rewrite Hl in Hb, Hs.
+    destruct r2 as [f|e|s]; [| |destruct Hs].
+    - inv Hr. destruct Hs as (A & B & C & D & E). apply Inv_UIC in A. unfold get_post. rewrite B. splits; auto.
+    - destruct Hs as (-> & -> & Hput). unfold lift in Hr.
+      destruct (trees_put g policy u1 T (pow2 k)) as [rp u3] eqn:Ep.
+      destruct (Hput _ _ eq_refl) as (-> & Hi & Hl3). apply Inv_UIC in Hi. inv Hr. unfold get_post. splits; auto.
+  Qed.
+
+  Lemma steal_global_G x i class k frame r u' :
+    Inv x -> i < ntrees (us x) -> class_slots (us x) class <> None -> (k <= tord g)%nat ->
+    frame_in (us x) k frame i ->
+    steal_global g policy (us x) i class k frame = (r, u') -> get_post x k frame r u'.
+  Proof.
+    intros HI Hi Hc Hk Hfr. unfold steal_global. unfold lift at 1.
+    destruct (trees_steal policy (us x) i class (pow2 k)) as [ro u1] eqn:Es.
+    apply Inv_UIC in HI.
+    destruct (trees_steal_C g policy WF LF _ _ _ _ _ _ _ _ HI Hi Hc Es) as [(-> & ->)|Hs].
+    - intros H; inv H. apply get_post_err. apply Inv_UIC; exact HI.
+    - destruct Hs as (t & t' & Ht & Hres & Hle & Hst & Hf' & Hr' & Hcl & -> & Hu1 & Hcr).
+      specialize (Hcr (crd i (pow2 k)) (fun j => eq_refl)).
+      apply pay_G; auto.
+      + subst u1. reflexivity.
+      + subst u1. rewrite ntrees_set_tree. exact Hi.
+      + intros _. apply (row_tree_tree_row g WF).
+  Qed.
+
+  (* ----- get_local ----- *)
+  Definition glr_post (x : ustate) (k : nat) (frame : option N) (r : glr) (u' : upper) : Prop :=
+    match r with
+    | GOk f c => get_post x k frame (Ok (f, c)) u'
+    | GErr e t => get_post x k frame (Err e) u' /\ (forall t0, t = Some t0 -> t0 < ntrees (us x))
+    | GPanic _ => False
+    end.
+
+  Definition frame_al (u : upper) (k : nat) (frame : option N) : Prop :=
+    forall f, frame = Some f -> aligned f k = true /\ f + pow2 k <= frames (low u).
+
+  Lemma abs_frames_eq l l' f k : abs g l' = spec_get g (abs g l) f k -> frames l' = frames l.
+  Proof. intros H. apply (f_equal o_frames) in H. exact H. Qed.
+
+  Lemma enabled_lt_frames l f k : spec_get_enabled (abs g l) f k = true -> (f / 64) * 64 < frames l.
+  Proof.
+    unfold spec_get_enabled, in_range. intros H. apply andb_true_iff in H. destruct H as (H & _).
+    apply andb_true_iff in H. destruct H as (_ & H). apply N.leb_le in H. cbn [o_frames abs] in H.
+    assert (0 < pow2 k) by (unfold pow2; apply N.neq_0_lt_0, N.pow_nonzero; lia).
+    pose proof (N.mul_div_le f 64). lia.
+  Qed.
+
+  Lemma get_local_step fuel' sync x k class local frame r u' :
+    (sync = true -> forall x3, Inv x3 -> idx_ok (us x3) class local -> frame_al (us x3) k frame ->
+       forall r3 u3, get_local g policy fuel' (us x3) k class local frame false = (r3, u3) ->
+                     glr_post x3 k frame r3 u3) ->
+    Inv x -> idx_ok (us x) class local -> (k <= tord g)%nat -> frame_al (us x) k frame ->
+    get_local g policy (S fuel') (us x) k class local frame sync = (r, u') ->
+    glr_post x k frame r u'.
+  Proof.
+    intros IH HI Hidx Hk Hal Hg. cbn [get_local] in Hg.
+    pose proof HI as HC. apply Inv_UIC in HC.
+    destruct (locals_get g (us x) class local (option_map (fun f => f / TF) frame) (pow2 k)) as [lr u1] eqn:El.
+    pose proof (locals_get_frame g _ _ _ _ _ _ _ El) as Fr1.
+    pose proof (locals_get_C g policy WF LF _ _ _ _ _ _ _ _ _ HC Hidx El) as Hl.
+    destruct lr as [row|rv| |s]; [| | |destruct Hl].
+    - (* the slot had enough frames *)
+      destruct Hl as (s & Hat & Hp & Hrow & Hn & Htree & Hlt & Hfrm & Hu1 & Hcr).
+      specialize (Hcr (crd (row_tree g row) (pow2 k)) (fun j => eq_refl)).
+      assert (Hl1 : low u1 = low (us x)) by (subst u1; apply set_slot_low).
+      assert (Hn1 : ntrees u1 = ntrees (us x)) by (subst u1; apply ntrees_set_slot).
+      destruct (lget_low g u1 row k frame) as [r2 u2] eqn:Eg.
+      pose proof (lget_low_frame g _ _ _ _ _ _ Eg) as Fr2.
+      assert (Hatt : match frame with
+                     | None => row_tree g row = row_tree g row
+                     | Some f => f / TF = row_tree g row /\ aligned f k = true /\
+                                 f + pow2 k <= frames (low (us (mk x u1))) end).
+      { destruct frame as [f|]; [|reflexivity]. cbn [us mk]. rewrite Hl1.
+        destruct (Hal f eq_refl). splits; auto. symmetry. apply Htree. reflexivity. }
+      assert (HT1 : row_tree g row < ntrees (us (mk x u1))) by (cbn [us mk]; rewrite Hn1; exact Hlt).
+      pose proof (attempt_G [] (mk x u1) _ k row frame r2 u2 Hcr HT1 Hk Hatt Eg) as (Hb & Hs).
+      cbn [us mk off] in Hb, Hs. rewrite Hl1 in Hb, Hs.
+      destruct r2 as [f|e|s2]; [| |destruct Hs].
+      + destruct Hs as (A & B & C & D & E). apply Inv_UIC in A.
+        assert (Hpost : forall u3, Inv (mk x u3) -> low u3 = low u2 -> glr_post x k frame (GOk f class) u3).
+        { intros u3 Hi3 Hl3. cbn [glr_post get_post]. rewrite Hl3, B. splits; auto. }
+        destruct (negb (row =? f / 64)).
+        * destruct (locals_set_start g u2 class local (f / 64)) as [rs u3] eqn:Ess.
+          assert (Hidx2 : idx_ok (us (mk x u2)) class local).
+          { cbn [us mk]. eapply frame_idx_ok; [|exact Hidx]. eapply frame_trans; eauto. }
+          assert (Hf64 : f / 64 * 64 < frames (low (us (mk x u2)))).
+          { cbn [us mk]. rewrite (abs_frames_eq _ _ _ _ D). apply (enabled_lt_frames _ _ k). exact C. }
+          apply Inv_UIC in A.
+          destruct (locals_set_start_C g policy WF LF _ _ _ _ _ _ _ _ A Hidx2 Hf64 Ess) as (-> & Hi3 & Hu3).
+          inv Hg. apply Hpost; [apply Inv_UIC; exact Hi3|].
+          destruct Hu3 as [->|(s3 & _ & _ & _ & ->)]; [reflexivity|apply set_slot_low].
+        * inv Hg. apply Hpost; auto.
+      + destruct Hs as (-> & -> & Hput).
+        destruct (trees_put g policy u1 (row_tree g row) (pow2 k)) as [rp u3] eqn:Ep.
+        destruct (Hput _ _ eq_refl) as (-> & Hi3 & Hl3). apply Inv_UIC in Hi3. inv Hg.
+        cbn [glr_post get_post]. splits; auto. intros t0 Et. inv Et. exact Hlt.
+    - (* present but not enough frames, or another tree *)
+      destruct Hl as (-> & s & Hat & Hp & -> & Hwhy).
+      destruct (UIC_slot g policy WF LF _ _ _ _ _ _ HC Hat Hp) as (Ht & _ & _).
+      cbn [slot_resv rv_row rv_free] in Hg.
+      set (t := row_tree g (s_row s)) in *.
+      assert (Hfail : forall u3, Inv (mk x u3) -> low u3 = low (us x) ->
+                                 glr_post x k frame (GErr EMemory (Some t)) u3).
+      { intros u3 Hi3 Hl3. cbn [glr_post get_post]. splits; auto. intros t0 Et. inv Et. exact Ht. }
+      destruct (sync && match frame with Some f => f / TF =? t | None => true end) eqn:Esync.
+      2:{ inv Hg. apply Hfail; [rewrite mk_id; exact HI|reflexivity]. }
+      apply andb_true_iff in Esync. destruct Esync as (-> & Ecase).
+      specialize (IH eq_refl).
+      assert (Hlt : s_free s < pow2 k).
+      { destruct Hwhy as [(t1 & Et1 & Hne)|Hlt]; [|exact Hlt]. exfalso.
+        destruct frame as [f|]; [|discriminate]. cbn [option_map] in Et1. inv Et1.
+        apply N.eqb_eq in Ecase. apply Hne. symmetry. exact Ecase. }
+      replace (pow2 k <? s_free s) with false in Hg by (symmetry; apply N.ltb_ge; lia).
+      destruct (trees_sync (us x) t (pow2 k - s_free s)) as [rs u2] eqn:Esy.
+      pose proof (trees_sync_frame _ _ _ _ _ Esy) as Fr2.
+      destruct (trees_sync_C g policy WF LF _ _ _ _ _ _ _ HC Ht Esy) as [(-> & ->)|Hsy].
+      { inv Hg. apply Hfail; [rewrite mk_id; exact HI|reflexivity]. }
+      destruct Hsy as (tr & Htr & Hres & Hmin & -> & Hu2 & Hcr).
+      specialize (Hcr (crd t (t_free tr)) (fun j => eq_refl)).
+      assert (Hl2 : low u2 = low (us x)) by (subst u2; reflexivity).
+      assert (Hn2 : ntrees u2 = ntrees (us x)) by (subst u2; apply ntrees_set_tree).
+      destruct (locals_put g u2 class local t (t_free tr)) as [rp u3] eqn:Epu.
+      pose proof (locals_put_frame g _ _ _ _ _ _ _ Epu) as Fr3.
+      assert (Hidx2 : idx_ok (us (mk x u2)) class local) by (cbn [us mk]; eapply frame_idx_ok; eauto).
+      assert (Hc2 : t_free tr <= crd t (t_free tr) t) by (unfold crd, delta; rewrite N.eqb_refl; lia).
+      destruct (locals_put_C g policy WF LF _ _ _ _ _ _ _ _ _ Hcr Hidx2 Hc2 Epu) as [(-> & Hu3 & _)|(-> & Hput)].
+      + (* not put (cannot happen sequentially): refund to the tree *)
+        cbn [us mk] in Hu3. subst u3.
+        destruct (trees_put g policy u2 t (t_free tr)) as [rq u4] eqn:Ep.
+        assert (Ht2 : t < ntrees (us (mk x u2))) by (cbn [us mk]; rewrite Hn2; exact Ht).
+        assert (Hc3 : forall j, cr0 j + delta j t (t_free tr) = crd t (t_free tr) j)
+          by (intros j; unfold crd, cr0; lia).
+        destruct (trees_put_C g policy WF LF _ cr0 _ _ _ _ _ _ Hcr Ht2 Hc2 Hc3 Ep) as (-> & Hi4 & Hex).
+        inv Hg. apply Hfail; [apply Inv_UIC; exact Hi4|].
+        destruct Hex as (t1 & t1' & _ & _ & _ & _ & ->). cbn [us mk]. rewrite <- Hl2. reflexivity.
+      + destruct Hput as (s3 & Hat3 & Hp3 & Hrt3 & Hu3 & Hcr3).
+        assert (Hc3 : forall j, cr0 j + delta j t (t_free tr) = crd t (t_free tr) j)
+          by (intros j; unfold crd, cr0; lia).
+        specialize (Hcr3 cr0 Hc3). cbn [us mk] in Hu3.
+        assert (Hl3 : low u3 = low (us x)) by (subst u3; rewrite set_slot_low; exact Hl2).
+        assert (Hn3 : ntrees u3 = ntrees (us x)) by (subst u3; rewrite ntrees_set_slot; exact Hn2).
+        assert (Hidx3 : idx_ok (us (mk x u3)) class local).
+        { cbn [us mk]. eapply frame_idx_ok; [|exact Hidx]. eapply frame_trans; eauto. }
+        assert (Hal3 : frame_al (us (mk x u3)) k frame).
+        { cbn [us mk]. unfold frame_al. rewrite Hl3. exact Hal. }
+        apply Inv_UIC in Hcr3.
+        pose proof (IH (mk x u3) Hcr3 Hidx3 Hal3 _ _ Hg) as Hp3'.
+        destruct r as [f c|e t0|s4]; cbn [glr_post] in *.
+        * eapply get_post_chain; eauto.
+        * destruct Hp3' as (Hq & Hq2). split; [eapply get_post_chain; eauto|].
+          cbn [us mk] in Hq2. rewrite Hn3 in Hq2. exact Hq2.
+        * exact Hp3'.
+    - (* no reservation *)
+      destruct Hl as (-> & _). inv Hg. cbn [glr_post]. split; [apply get_post_err; exact HI|].
+      intros t0 Et; discriminate.
+  Qed.
+
+  Lemma get_local_G x k class local frame r u' :
+    Inv x -> idx_ok (us x) class local -> (k <= tord g)%nat -> frame_al (us x) k frame ->
+    get_local g policy 2 (us x) k class local frame true = (r, u') ->
+    glr_post x k frame r u'.
+  Proof.
+    intros HI Hidx Hk Hal. apply get_local_step; auto.
+    intros _ x3 HI3 Hidx3 Hal3 r3 u3. apply get_local_step; auto. discriminate.
+  Qed.
+
+  (* ----- reserve_or_steal ----- *)
+  Lemma class_locals_idx u c len j :
+    class_locals u c = Some len -> 0 < len -> idx_ok u c (j mod len).
+  Proof.
+    unfold class_locals. intros H Hl l El. rewrite El in H. cbn in H. inv H. apply N.mod_lt. lia.
+  Qed.
+
+  Lemma reserve_or_steal_G x i k class local len r u' :
+    Inv x -> i < ntrees (us x) -> class_locals (us x) class = Some len -> 0 < len -> (k <= tord g)%nat ->
+    reserve_or_steal g policy (us x) i k class local = (r, u') -> get_post x k None r u'.
+  Proof.
+    intros HI Hi Hcl Hlen Hk. unfold reserve_or_steal. unfold lift at 1.
+    assert (Hc : class_slots (us x) class <> None).
+    { intros E. unfold class_locals in Hcl. rewrite E in Hcl. discriminate. }
+    destruct (trees_reserve_or_steal policy (us x) i class (pow2 k)) as [ro u1] eqn:Es.
+    pose proof (trees_reserve_or_steal_frame _ _ _ _ _ _ _ Es) as Fr1.
+    pose proof (trees_reserve_or_steal_low _ _ _ _ _ _ _ Es) as Hl1.
+    pose proof HI as HC. apply Inv_UIC in HC.
+    destruct (trees_reserve_or_steal_C g policy WF LF _ _ _ _ _ _ _ _ PR HC Hi Hc Es) as [(-> & ->)|Hs].
+    { intros H; inv H. apply get_post_err. exact HI. }
+    destruct Hs as (t & Ht & Hres & Hle & [(Hkeep & -> & Hu1 & Hih)|(Hst & -> & Hu1 & Hcr)]).
+    - (* reserved: the whole counter is in hand *)
+      cbv beta iota.
+      assert (Hih2 : UIC (crd i (pow2 k)) [(i, class, t_free t - pow2 k)] (mk x u1)).
+      { eapply UIC_ih_credit; [exact Hih|]. intros j. unfold crd, cr0, delta. destruct (j =? i); lia. }
+      assert (Hi1 : i < ntrees (us (mk x u1))) by (cbn [us mk]; rewrite (frame_ntrees _ _ Fr1); exact Hi).
+      destruct (lget_low g u1 (tree_row g i) k None) as [r2 u2] eqn:Eg.
+      pose proof (lget_low_frame g _ _ _ _ _ _ Eg) as Fr2.
+      pose proof (attempt_G _ (mk x u1) i k (tree_row g i) None r2 u2 Hih2 Hi1 Hk (row_tree_tree_row g WF i) Eg)
+        as (Hb & Hs).
+      cbn [us mk off] in Hb, Hs. rewrite Hl1 in Hb, Hs.
+      destruct r2 as [f|e|s2]; [| |intros; destruct Hs].
+      + destruct Hs as (A & B & C & D & E).
+        assert (Hpost : forall u3, UIC cr0 [] (mk x u3) -> low u3 = low u2 -> get_post x k None (Ok (f, class)) u3).
+        { intros u3 Hi3 Hl3. cbn [get_post]. rewrite Hl3, B. apply Inv_UIC in Hi3. splits; auto; discriminate. }
+        assert (Hcl2 : class_locals u2 class = Some len).
+        { rewrite (frame_class_locals (us x) u2); [exact Hcl|]. eapply frame_trans; eauto. }
+        rewrite Hcl2. replace (0 <? len) with true by (symmetry; apply N.ltb_lt; exact Hlen).
+        unfold lift at 1.
+        destruct (locals_swap g u2 class (local mod len) (f / TF) (t_free t - pow2 k)) as [rs u3] eqn:Esw.
+        pose proof (locals_swap_low g _ _ _ _ _ _ _ Esw) as Hl3.
+        rewrite B in Esw.
+        destruct (locals_swap_C g policy WF LF _ _ (mk x u2) _ _ _ _ _ _ A (class_locals_idx _ _ _ _ Hcl2 Hlen) Esw)
+          as (s & Hat & -> & Hu3 & Hx).
+        cbn [us mk] in Hu3.
+        destruct (s_pres s) eqn:Hp.
+        * unfold resv_of in Hx. rewrite Hp in Hx. cbn [app] in Hx.
+          unfold lift. cbn [slot_resv rv_row rv_free].
+          destruct (trees_unreserve g policy u3 (row_tree g (s_row s)) (s_free s) class) as [ru u4] eqn:Eu.
+          pose proof (trees_unreserve_low g policy _ _ _ _ _ _ Eu) as Hl4.
+          destruct (trees_unreserve_C g policy WF LF _ _ (mk x u3) _ _ _ _ _ Hx Eu) as (-> & Hi4 & _).
+          intros H; inv H. apply Hpost; [exact Hi4|congruence].
+        * unfold resv_of in Hx. rewrite Hp in Hx. cbn [app] in Hx.
+          intros H; inv H. apply Hpost; [exact Hx|congruence].
+      + destruct Hs as (-> & -> & _). unfold lift.
+        destruct (trees_unreserve g policy u1 i (t_free t) class) as [ru u3] eqn:Eu.
+        pose proof (trees_unreserve_low g policy _ _ _ _ _ _ Eu) as Hl3.
+        destruct (trees_unreserve_C g policy WF LF _ _ (mk x u1) _ _ _ _ _ Hih Eu) as (-> & Hi3 & _).
+        intros H; inv H. cbn [get_post]. apply Inv_UIC in Hi3. splits; auto; congruence.
+    - (* steal: 2^k frames of credit *)
+      cbv beta iota.
+      specialize (Hcr (crd i (pow2 k)) (fun j => eq_refl)).
+      apply pay_G; auto.
+      + rewrite (frame_ntrees _ _ Fr1). exact Hi.
+      + intros f Hf. discriminate.
+      + intros _. apply (row_tree_tree_row g WF).
+  Qed.
+
+  (* ----- steal_local / demote_local ----- *)
+  Lemma pay_G2 x u1 T k row frame c :
+    UIC (crd T (pow2 k)) [] (mk x u1) -> low u1 = low (us x) -> T < ntrees u1 -> (k <= tord g)%nat ->
+    frame_in (us x) k frame T -> (frame = None -> row_tree g row = T) ->
+    forall r u',
+    match lget_low g u1 row k frame with
+    | (Err EMemory, u2) => lift (trees_put g policy u2 T (pow2 k)) (fun _ u3 => (Err EMemory, u3))
+    | (Ok f, u2) => (Ok (f, c), u2)
+    | (Err e, u2) => (Err e, u2)
+    | (Panic s, u2) => (Panic s, u2)
+    end = (r, u') -> get_post x k frame r u'.
+  Proof.
+    intros H Hl HT Hk Hfr Hrow r u' Hr.
+    destruct (lget_low g u1 row k frame) as [r2 u2] eqn:Eg.
+    assert (Hfr' : frame_in (us (mk x u1)) k frame T) by (unfold frame_in in *; cbn [us mk]; rewrite Hl; exact Hfr).
+    pose proof (attempt_G [] (mk x u1) T k row frame r2 u2 H HT Hk (frame_in_attempt _ _ _ _ _ Hfr' Hrow) Eg)
+      as (Hb & Hs).
+    cbn [us mk off] in Hb, Hs. rewrite Hl in Hb, Hs.
+    destruct r2 as [f|e|s]; [| |destruct Hs].
+    - inv Hr. destruct Hs as (A & B & C & D & E). apply Inv_UIC in A. unfold get_post. rewrite B. splits; auto.
+    - destruct Hs as (-> & -> & Hput). unfold lift in Hr.
+      destruct (trees_put g policy u1 T (pow2 k)) as [rp u3] eqn:Ep.
+      destruct (Hput _ _ eq_refl) as (-> & Hi & Hl3). apply Inv_UIC in Hi. inv Hr. unfold get_post. splits; auto.
+  Qed.
+
+  Lemma frame_al_in u k frame T :
+    frame_al u k frame -> (forall f, frame = Some f -> f / TF = T) -> frame_in u k frame T.
+  Proof. intros H1 H2 f Hf. destruct (H1 f Hf). splits; auto. Qed.
+
+  Lemma steal_local_G x rq frame r u' :
+    Inv x -> (r_order rq <= tord g)%nat -> frame_al (us x) (r_order rq) frame ->
+    steal_local g policy (us x) rq frame = (r, u') -> get_post x (r_order rq) frame r u'.
+  Proof.
+    intros HI Hk Hal. unfold steal_local. unfold lift at 1.
+    destruct (locals_steal_any g policy (us x) (r_class rq) (r_local rq) (option_map (fun f => f / TF) frame)
+                (pow2 (r_order rq))) as [ro u1] eqn:Es.
+    pose proof HI as HC. apply Inv_UIC in HC.
+    destruct (steal_any_loop_inv g policy _ _ _ _ _ _ _ _ _ Es) as [(-> & ->)|Hs].
+    { intros H; inv H. apply get_post_err. exact HI. }
+    destruct Hs as (tc & jj & l & lr & Hcs & Hjj & _ & Hget & Hk2).
+    assert (Hidx : idx_ok (us x) tc jj) by (intros l' Hl'; rewrite Hcs in Hl'; inv Hl'; exact Hjj).
+    pose proof (locals_get_C g policy WF LF _ _ _ _ _ _ _ _ _ HC Hidx Hget) as Hl.
+    destruct Hk2 as [(row & -> & ->)|(s & -> & ->)]; [|destruct Hl].
+    destruct Hl as (s & Hat & Hp & Hrow & Hn & Htree & Hlt & Hfrm & Hu1 & Hcr).
+    specialize (Hcr (crd (row_tree g row) (pow2 (r_order rq))) (fun j => eq_refl)).
+    cbv beta iota. cbn [rv_row rv_class].
+    apply pay_G2; auto.
+    - subst u1. apply set_slot_low.
+    - subst u1. rewrite ntrees_set_slot. exact Hlt.
+    - apply frame_al_in; auto. intros f ->. symmetry. apply Htree. reflexivity.
+  Qed.
+
+  Lemma slot_get_inv old tree free new :
+    slot_get g old tree free = Some new ->
+    s_pres old = true /\ (forall t, tree = Some t -> row_tree g (s_row old) = t) /\ free <= s_free old /\
+    new = {| s_pres := true; s_row := s_row old; s_free := s_free old - free |}.
+  Proof.
+    unfold slot_get. destruct (s_pres old); [|discriminate]. cbn [andb].
+    destruct (match tree with Some i => row_tree g (s_row old) =? i | None => true end) eqn:Et; [|discriminate].
+    destruct (free <=? s_free old) eqn:Ef; [|discriminate]. intros H; inv H.
+    apply N.leb_le in Ef. splits; auto. intros t ->. apply N.eqb_eq. exact Et.
+  Qed.
+
+  Lemma demote_local_G x rq frame r u' :
+    Inv x -> (r_order rq <= tord g)%nat -> frame_al (us x) (r_order rq) frame ->
+    (forall lc, r_local rq = Some lc -> idx_ok (us x) (r_class rq) lc) ->
+    demote_local g policy (us x) rq frame = (r, u') -> get_post x (r_order rq) frame r u'.
+  Proof.
+    intros HI Hk Hal Hidx. unfold demote_local. unfold lift at 1.
+    set (k := r_order rq) in *. set (class := r_class rq) in *.
+    destruct (locals_demote_any g policy (us x) class (r_local rq) (option_map (fun f => f / TF) frame) (pow2 k))
+      as [ro u1] eqn:Es.
+    pose proof HI as HC. apply Inv_UIC in HC.
+    destruct (locals_demote_any_inv g policy _ _ _ _ _ _ _ Es) as [(-> & ->)|(Hcls & Hs)].
+    { intros H; inv H. apply get_post_err. exact HI. }
+    destruct Hs as (tc & idx & old & new & r0 & Hpol & Hat & Hsg & Hres & ->).
+    destruct (slot_get_inv _ _ _ _ Hsg) as (Hp & Htree & Hfree & Hnew).
+    destruct (UIC_slot g policy WF LF _ _ _ _ _ _ HC Hat Hp) as (HT & Hrow64 & Hsf).
+    set (T := row_tree g (s_row old)) in *.
+    set (ua := set_slot (us x) tc idx slot_none) in *.
+    (* the emptied slot's reservation is in hand, as a reservation of the requesting class, and 2^k of it as credit *)
+    assert (Ha : UIC cr0 [(T, tc, s_free old)] (mk x ua)).
+    { pose proof (UIC_slot_xchg g policy cr0 [] x tc idx old slot_none Hat) as Hx.
+      unfold resv_of in Hx. rewrite Hp in Hx. cbn [s_pres slot_none app] in Hx.
+      apply Hx; [discriminate|exact HC]. }
+    assert (Hla : low ua = low (us x)) by apply set_slot_low.
+    assert (Hna : ntrees ua = ntrees (us x)) by apply ntrees_set_slot.
+    assert (Hclsa : class_slots ua class <> None) by (subst ua; rewrite class_slots_set_slot_none; exact Hcls).
+    assert (Hb : UIC cr0 [(T, class, s_free old)] (mk x ua)).
+    { eapply UIC_ih_class; [exact Ha|exact Hclsa|].
+      intros tr Htr f'. cbn [us mk] in Htr.
+      pose proof (UIC_tree g policy WF LF _ _ _ _ _ Ha Htr) as Hok.
+      apply (tree_okC_nn g policy WF LF) in Hok. destruct Hok as (_ & _ & _ & _ & F).
+      eapply PT; [exact Hpol|]. eapply F. left. reflexivity. }
+    assert (Hc : UIC (crd T (pow2 k)) [(T, class, s_free old - pow2 k)] (mk x ua)).
+    { eapply UIC_ih_credit; [exact Hb|]. intros j. unfold crd, cr0, delta. destruct (j =? T); lia. }
+    assert (Hfin : forall u2, UIC (crd T (pow2 k)) [] (mk x u2) -> low u2 = low (us x) -> ntrees u2 = ntrees (us x) ->
+              forall r u',
+              match lget_low g u2 (s_row new) k frame with
+              | (Err EMemory, u3) => lift (trees_put g policy u3 (row_tree g (s_row new)) (pow2 k))
+                                          (fun _ u4 => (Err EMemory, u4))
+              | (Ok f, u3) => (Ok (f, class), u3)
+              | (Err e, u3) => (Err e, u3)
+              | (Panic s, u3) => (Panic s, u3)
+              end = (r, u') -> get_post x k frame r u').
+    { intros u2 H2 Hl2 Hn2 r1 u1' Hr. rewrite Hnew in Hr. cbn [s_row] in Hr. fold T in Hr.
+      eapply pay_G2; eauto.
+      - rewrite Hn2. exact HT.
+      - apply frame_al_in; auto. intros f ->. symmetry. apply Htree. reflexivity.
+      - intros _. reflexivity. }
+    unfold demote_result in Hres. cbv zeta in Hres. fold ua in Hres.
+    destruct (r_local rq) as [lc|] eqn:Eloc.
+    - (* the demoted reservation replaces slot lc of the requesting class *)
+      assert (Hidxa : idx_ok ua class lc).
+      { eapply frame_idx_ok; [apply set_slot_frame|]. apply Hidx. reflexivity. }
+      destruct (slot_at ua class lc) as [o2|] eqn:Eo2.
+      2:{ exfalso. unfold slot_at in Eo2. destruct (class_slots ua class) as [ml|] eqn:Eml; [|congruence].
+          destruct (idx_ok_slot _ _ _ _ Hidxa Eml) as (s2 & Hs2). congruence. }
+      destruct Hres as (-> & ->).
+      assert (Hd : UIC (crd T (pow2 k)) (resv_of g class o2 ++ []) (mk x (set_slot ua class lc new))).
+      { apply (UIC_slot_xchg g policy _ [] (mk x ua) class lc o2 new Eo2).
+        - intros _. cbn [us mk]. rewrite Hla, Hnew. cbn [s_row s_free]. split; [exact Hrow64|lia].
+        - unfold resv_of. rewrite Hnew. cbn [s_pres s_row s_free app]. exact Hc. }
+      set (ub := set_slot ua class lc new) in *.
+      assert (Hlb : low ub = low (us x)) by (subst ub; rewrite set_slot_low; exact Hla).
+      assert (Hnb : ntrees ub = ntrees (us x)) by (subst ub; rewrite ntrees_set_slot; exact Hna).
+      cbv beta iota. destruct (s_pres o2) eqn:Hp2.
+      + unfold resv_of in Hd. rewrite Hp2 in Hd. cbn [app] in Hd.
+        cbn [slot_resv rv_row rv_free rv_class]. unfold lift at 1.
+        destruct (trees_unreserve g policy ub (row_tree g (s_row o2)) (s_free o2) class) as [ru uc] eqn:Eu.
+        pose proof (trees_unreserve_low g policy _ _ _ _ _ _ Eu) as Hlc.
+        pose proof (trees_unreserve_frame g policy _ _ _ _ _ _ Eu) as Frc.
+        destruct (trees_unreserve_C g policy WF LF _ _ (mk x ub) _ _ _ _ _ Hd Eu) as (-> & He & _).
+        apply Hfin; auto; [congruence|]. rewrite (frame_ntrees _ _ Frc). exact Hnb.
+      + unfold resv_of in Hd. rewrite Hp2 in Hd. cbn [app] in Hd.
+        unfold lift at 1. apply Hfin; auto.
+    - (* no slot to put it in: the demoted reservation is returned to its tree *)
+      destruct Hres as (-> & ->). cbv beta iota.
+      cbn [slot_resv rv_row rv_free rv_class]. unfold lift at 1.
+      rewrite Hnew at 1 2. cbn [s_row s_free]. fold T.
+      destruct (trees_unreserve g policy ua T (s_free old - pow2 k) class) as [ru uc] eqn:Eu.
+      pose proof (trees_unreserve_low g policy _ _ _ _ _ _ Eu) as Hlc.
+      pose proof (trees_unreserve_frame g policy _ _ _ _ _ _ Eu) as Frc.
+      destruct (trees_unreserve_C g policy WF LF _ _ (mk x ua) _ _ _ _ _ Hc Eu) as (-> & He & _).
+      apply Hfin; auto; [congruence|]. rewrite (frame_ntrees _ _ Frc). exact Hna.
+  Qed.
+
+  (* ============================ composition ============================ *)
+  Definition GP (x : ustate) (k : nat) (frame : option N) (r : res (N * N)) (u' : upper) : Prop :=
+    get_post x k frame r u' /\ frame_rel (us x) u'.
+
+  Definition req_ok (u : upper) (rq : request) (frame : option N) : Prop :=
+    class_slots u (r_class rq) <> None /\ (r_order rq <= tord g)%nat /\
+    (forall lc, r_local rq = Some lc -> idx_ok u (r_class rq) lc) /\
+    frame_al u (r_order rq) frame.
+
+  Lemma req_ok_frame u u1 rq frame :
+    frame_rel u u1 -> low u1 = low u -> req_ok u rq frame -> req_ok u1 rq frame.
+  Proof.
+    intros Fr Hl (A & B & C & D). unfold req_ok. splits; auto.
+    - apply (frame_class_slots u u1); auto.
+    - intros lc Hlc. eapply frame_idx_ok; eauto.
+    - unfold frame_al. rewrite Hl. exact D.
+  Qed.
+
+  Lemma GP_err_inv x k frame u1 : GP x k frame (Err EMemory) u1 ->
+    Inv (mk x u1) /\ low u1 = low (us x) /\ frame_rel (us x) u1.
+  Proof. intros ((_ & A & B) & C). auto. Qed.
+
+  Lemma GP_chain x k frame u1 r u' :
+    GP x k frame (Err EMemory) u1 -> GP (mk x u1) k frame r u' -> GP x k frame r u'.
+  Proof.
+    intros H1 (H2 & H3). destruct (GP_err_inv _ _ _ _ H1) as (A & B & C). split.
+    - eapply get_post_chain; eauto.
+    - cbn [us mk] in H3. eapply frame_trans; eauto.
+  Qed.
+
+  Lemma GP_refl x k frame : Inv x -> GP x k frame (Err EMemory) (us x).
+  Proof. intros H. split; [apply get_post_err; exact H|apply frame_refl]. Qed.
+
+  Lemma GP_no_other_err x k frame e u' : GP x k frame (Err e) u' -> e = EMemory.
+  Proof. intros ((A & _) & _). exact A. Qed.
+
+  (* ----- the search loops ----- *)
+  Lemma search_best_GP x k (acc : upper -> N -> res (N * N) * upper) rate cap start offset len r u' :
+    Inv x ->
+    (forall u1 i r1 u2, GP x k None (Err EMemory) u1 -> i < ntrees (us x) -> acc u1 i = (r1, u2) ->
+                        GP (mk x u1) k None r1 u2) ->
+    (ntrees (us x) = 0 -> len <= offset) ->
+    search_best g acc rate cap (us x) start offset len = (r, u') -> GP x k None r u'.
+  Proof.
+    intros HI Hacc Hz Hs.
+    pose proof (search_best_inv g acc (ntrees (us x)) (fun u1 => GP x k None (Err EMemory) u1)
+                  (fun r u' => GP x k None r u')) as L.
+    assert (Hout : forall r u', outcome (fun u1 => GP x k None (Err EMemory) u1) (fun r u' => GP x k None r u') r u'
+                                -> GP x k None r u').
+    { intros r0 u0. unfold outcome. destruct r0 as [a|[]|s]; auto. }
+    apply Hout. eapply L; [| |apply GP_refl; exact HI|exact Hz|exact Hs].
+    - intros u1 H1. destruct (GP_err_inv _ _ _ _ H1) as (_ & _ & Fr). apply frame_ntrees. exact Fr.
+    - intros u1 i r1 u2 H1 Hi Ha. pose proof (GP_chain _ _ _ _ _ _ H1 (Hacc _ _ _ _ H1 Hi Ha)) as H2.
+      unfold outcome. destruct r1 as [a|[]|s]; auto.
+  Qed.
+
+  Lemma steal_global_GP x rq u1 i r1 u2 :
+    req_ok (us x) rq None -> GP x (r_order rq) None (Err EMemory) u1 -> i < ntrees (us x) ->
+    steal_global g policy u1 i (r_class rq) (r_order rq) None = (r1, u2) ->
+    GP (mk x u1) (r_order rq) None r1 u2.
+  Proof.
+    intros Hok H1 Hi Ha. destruct (GP_err_inv _ _ _ _ H1) as (A & B & C).
+    destruct (req_ok_frame _ _ _ _ C B Hok) as (Q1 & Q2 & Q3 & Q4).
+    split; [|cbn [us mk]; eapply steal_global_frame; eauto].
+    eapply steal_global_G; cbn [us mk]; eauto.
+    - rewrite (frame_ntrees _ _ C). exact Hi.
+    - intros f Hf; discriminate.
+  Qed.
+
+  Lemma reserve_or_steal_GP x rq local len u1 i r1 u2 :
+    req_ok (us x) rq None -> class_locals (us x) (r_class rq) = Some len -> 0 < len ->
+    GP x (r_order rq) None (Err EMemory) u1 -> i < ntrees (us x) ->
+    reserve_or_steal g policy u1 i (r_order rq) (r_class rq) local = (r1, u2) ->
+    GP (mk x u1) (r_order rq) None r1 u2.
+  Proof.
+    intros Hok Hcl Hlen H1 Hi Ha. destruct (GP_err_inv _ _ _ _ H1) as (A & B & C).
+    destruct (req_ok_frame _ _ _ _ C B Hok) as (Q1 & Q2 & Q3 & Q4).
+    split; [|cbn [us mk]; eapply reserve_or_steal_frame; eauto].
+    eapply reserve_or_steal_G; cbn [us mk]; eauto.
+    - rewrite (frame_ntrees _ _ C). exact Hi.
+    - rewrite (frame_class_locals _ _ _ C). exact Hcl.
+  Qed.
+
+  Lemma search_and_reserve_GP x rq local len start r u' :
+    Inv x -> req_ok (us x) rq None -> class_locals (us x) (r_class rq) = Some len -> 0 < len ->
+    ntrees (us x) <> 0 ->
+    search_and_reserve g policy (us x) (r_order rq) (r_class rq) local start = (r, u') ->
+    GP x (r_order rq) None r u'.
+  Proof.
+    intros HI Hok Hcl Hlen Hn. unfold search_and_reserve.
+    set (acc := fun u i => reserve_or_steal g policy u i (r_order rq) (r_class rq) local).
+    assert (Hacc : forall x0, Inv x0 -> req_ok (us x0) rq None -> class_locals (us x0) (r_class rq) = Some len ->
+              forall u1 i r1 u2, GP x0 (r_order rq) None (Err EMemory) u1 -> i < ntrees (us x0) ->
+                                 acc u1 i = (r1, u2) -> GP (mk x0 u1) (r_order rq) None r1 u2).
+    { intros x0 HI0 Hok0 Hcl0 u1 i r1 u2 H1 Hi Ha. eapply reserve_or_steal_GP; eauto. }
+    match goal with |- match ?first with _ => _ end = _ -> _ => destruct first as [r1 u1] eqn:E1 end.
+    assert (H1 : GP x (r_order rq) None r1 u1).
+    { destruct (Nat.ltb (r_order rq) (hord g)).
+      - eapply search_best_GP; [exact HI|apply Hacc; auto| |exact E1]. intros; contradiction.
+      - inv E1. apply GP_refl. exact HI. }
+    destruct r1 as [a|e|s]; [intros H; inv H; exact H1| |intros H; inv H; exact H1].
+    pose proof (GP_no_other_err _ _ _ _ _ H1). subst e.
+    destruct (GP_err_inv _ _ _ _ H1) as (A & B & C).
+    intros H2. eapply GP_chain; [exact H1|].
+    eapply search_best_GP; [exact A| | |exact H2].
+    - apply Hacc; auto; cbn [us mk].
+      + eapply req_ok_frame; eauto.
+      + rewrite (frame_class_locals _ _ _ C). exact Hcl.
+    - cbn [us mk]. rewrite (frame_ntrees _ _ C). intros; contradiction.
+  Qed.
+
+  (* ----- last resorts ----- *)
+  Lemma steal_local_GP x rq frame r u' :
+    Inv x -> req_ok (us x) rq frame ->
+    steal_local g policy (us x) rq frame = (r, u') -> GP x (r_order rq) frame r u'.
+  Proof.
+    intros HI (Q1 & Q2 & Q3 & Q4) H. split; [eapply steal_local_G; eauto|eapply steal_local_frame; eauto].
+  Qed.
+  Lemma demote_local_GP x rq frame r u' :
+    Inv x -> req_ok (us x) rq frame ->
+    demote_local g policy (us x) rq frame = (r, u') -> GP x (r_order rq) frame r u'.
+  Proof.
+    intros HI (Q1 & Q2 & Q3 & Q4) H. split; [eapply demote_local_G; eauto|eapply demote_local_frame; eauto].
+  Qed.
+
+  Lemma oom_GP x rq frame r u' :
+    Inv x -> req_ok (us x) rq frame ->
+    match steal_local g policy (us x) rq frame with
+    | (Err EMemory, u2) => demote_local g policy u2 rq frame
+    | other => other
+    end = (r, u') -> GP x (r_order rq) frame r u'.
+  Proof.
+    intros HI Hok. destruct (steal_local g policy (us x) rq frame) as [r1 u1] eqn:E1.
+    pose proof (steal_local_GP _ _ _ _ _ HI Hok E1) as H1.
+    destruct r1 as [a|e|s]; [intros H; inv H; exact H1| |intros H; inv H; exact H1].
+    pose proof (GP_no_other_err _ _ _ _ _ H1). subst e.
+    destruct (GP_err_inv _ _ _ _ H1) as (A & B & C).
+    intros H2. eapply GP_chain; [exact H1|].
+    eapply demote_local_GP; eauto. cbn [us mk]. eapply req_ok_frame; eauto.
+  Qed.
+
+  Lemma oom_GP' x rq r u' :
+    Inv x -> req_ok (us x) rq None ->
+    match steal_local g policy (us x) rq None with
+    | (Err EMemory, u2) =>
+        match demote_local g policy u2 rq None with
+        | (Err EMemory, u3) => (Err EMemory, u3)
+        | other => other
+        end
+    | other => other
+    end = (r, u') -> GP x (r_order rq) None r u'.
+  Proof.
+    intros HI Hok H. apply oom_GP; auto.
+    destruct (steal_local g policy (us x) rq None) as [[a|[]|s] u1]; auto.
+    destruct (demote_local g policy u1 rq None) as [[a|[]|s] u2]; auto.
+  Qed.
+
+  (* ----- check ----- *)
+  Lemma check_cases u f rq : check g u f rq = Ok tt \/ check g u f rq = Err EArgument.
+  Proof.
+    unfold check. destruct (negb (Nat.leb (r_order rq) (tord g))); auto.
+    destruct (negb _); auto. destruct (negb _); auto. destruct (class_locals u (r_class rq)); auto.
+  Qed.
+
+  Lemma check_ok u f rq : check g u f rq = Ok tt ->
+    (r_order rq <= tord g)%nat /\ f + pow2 (r_order rq) <= frames (low u) /\
+    aligned f (r_order rq) = true /\ class_slots u (r_class rq) <> None.
+  Proof.
+    unfold check. destruct (Nat.leb (r_order rq) (tord g)) eqn:E1; cbn [negb]; [|discriminate].
+    destruct ((f + pow2 (r_order rq) <? W64) && (f + pow2 (r_order rq) <=? frames (low u))) eqn:E2;
+      cbn [negb]; [|discriminate].
+    destruct (f mod pow2 (r_order rq) =? 0) eqn:E3; cbn [negb]; [|discriminate].
+    destruct (class_locals u (r_class rq)) eqn:E4; [|discriminate]. intros _.
+    apply Nat.leb_le in E1. apply andb_true_iff in E2. destruct E2 as (_ & E2). apply N.leb_le in E2.
+    splits; auto. unfold class_locals in E4. intros E; rewrite E in E4; discriminate.
+  Qed.
+
+  Lemma get_local_GP x rq local frame r u' :
+    Inv x -> req_ok (us x) rq frame -> r_local rq = Some local ->
+    get_local g policy 2 (us x) (r_order rq) (r_class rq) local frame true = (r, u') ->
+    glr_post x (r_order rq) frame r u' /\ frame_rel (us x) u'.
+  Proof.
+    intros HI (Q1 & Q2 & Q3 & Q4) Hloc H. split; [eapply get_local_G; eauto|eapply get_local_frame; eauto].
+  Qed.
+
+  Lemma get_at_GP x f rq r u' :
+    Inv x -> req_ok (us x) rq (Some f) ->
+    get_at g policy (us x) f rq = (r, u') -> GP x (r_order rq) (Some f) r u'.
+  Proof.
+    intros HI Hok. unfold get_at.
+    assert (Hafter : forall x1, Inv x1 -> req_ok (us x1) rq (Some f) -> forall r u',
+      match steal_global g policy (us x1) (f / TF) (r_class rq) (r_order rq) (Some f) with
+      | (Err EMemory, u2) =>
+          match steal_local g policy u2 rq (Some f) with
+          | (Err EMemory, u3) => demote_local g policy u3 rq (Some f)
+          | other => other
+          end
+      | other => other
+      end = (r, u') -> GP x1 (r_order rq) (Some f) r u').
+    { intros x1 HI1 Hok1 r1 u1'. pose proof Hok1 as (Q1 & Q2 & Q3 & Q4).
+      destruct (Q4 f eq_refl) as (Ha & Hb).
+      destruct (steal_global g policy (us x1) (f / TF) (r_class rq) (r_order rq) (Some f)) as [r2 u2] eqn:E2.
+      assert (H2 : GP x1 (r_order rq) (Some f) r2 u2).
+      { split; [|eapply steal_global_frame; eauto].
+        eapply steal_global_G; eauto.
+        - pose proof HI1 as HC. apply Inv_UIC in HC. rewrite (UIC_ntrees g policy WF LF _ _ _ HC).
+          apply div_lt_ntab.
+          assert (0 < pow2 (r_order rq)) by (unfold pow2; apply N.neq_0_lt_0, N.pow_nonzero; lia). lia.
+        - intros f0 Hf0. inv Hf0. splits; auto. }
+      destruct r2 as [a|e|s]; [intros H; inv H; exact H2| |intros H; inv H; exact H2].
+      pose proof (GP_no_other_err _ _ _ _ _ H2). subst e.
+      destruct (GP_err_inv _ _ _ _ H2) as (A & B & C).
+      intros H3. eapply GP_chain; [exact H2|].
+      apply oom_GP; [exact A| |exact H3]. cbn [us mk]. eapply req_ok_frame; eauto. }
+    destruct (r_local rq) as [local|] eqn:Eloc; [|apply Hafter; auto].
+    destruct (get_local g policy 2 (us x) (r_order rq) (r_class rq) local (Some f) true) as [rl u1] eqn:El.
+    destruct (get_local_GP _ _ _ _ _ _ HI Hok Eloc El) as (Hp & Fr).
+    destruct rl as [f1 c1|e t|s]; cbn [glr_post] in Hp.
+    - cbn [of_glr]. intros H; inv H. split; auto.
+    - destruct Hp as (Hp & _). pose proof Hp as (He & A & B). subst e.
+      intros H. eapply GP_chain; [split; eauto|].
+      apply Hafter; [exact A| |exact H]. cbn [us mk]. eapply req_ok_frame; eauto.
+    - destruct Hp.
+  Qed.
+
+  Theorem llfree_get_GP x frame rq r u' :
+    Inv x -> (forall lc, r_local rq = Some lc -> idx_ok (us x) (r_class rq) lc) ->
+    llfree_get g policy (us x) frame rq = (r, u') ->
+    let f0 := match frame with Some f => f | None => 0 end in
+    (check g (us x) f0 rq = Err EArgument /\ r = Err EArgument /\ u' = us x) \/
+    (check g (us x) f0 rq = Ok tt /\ GP x (r_order rq) frame r u').
+  Proof.
+    intros HI Hidx. unfold llfree_get. cbv zeta.
+    destruct (check_cases (us x) (match frame with Some f => f | None => 0 end) rq) as [Ec|Ec]; rewrite Ec.
+    2:{ intros H; inv H. left. auto. }
+    right. split; [reflexivity|]. revert H.
+    destruct (check_ok _ _ _ Ec) as (Hk & Hfr & Hal & Hcls).
+    destruct frame as [f|].
+    { apply get_at_GP; auto. unfold req_ok. splits; auto. intros f1 Hf1. inv Hf1. auto. }
+    assert (Hok : req_ok (us x) rq None).
+    { unfold req_ok. splits; auto. intros f1 Hf1. discriminate. }
+    set (len := match class_locals (us x) (r_class rq) with Some n => n | None => 0 end).
+    set (start0 := (if len =? 0 then 0 else ntrees (us x) / len) * match r_local rq with Some i => i | None => 0 end).
+    assert (Hsb : forall r u',
+      match search_best g (fun u i => steal_global g policy u i (r_class rq) (r_order rq) None)
+              (rate_req policy (r_class rq) (pow2 (r_order rq))) 8 (us x) start0 0 (ntrees (us x)) with
+      | (Err EMemory, u1) =>
+          match steal_local g policy u1 rq None with
+          | (Err EMemory, u2) =>
+              match demote_local g policy u2 rq None with
+              | (Err EMemory, u3) => (Err EMemory, u3)
+              | other => other
+              end
+          | other => other
+          end
+      | other => other
+      end = (r, u') -> GP x (r_order rq) None r u').
+    { intros r0 u0.
+      destruct (search_best g _ _ 8 (us x) start0 0 (ntrees (us x))) as [r1 u1] eqn:E1.
+      assert (H1 : GP x (r_order rq) None r1 u1).
+      { apply (fun Hacc Hz => search_best_GP x (r_order rq) _ _ _ _ _ _ _ _ HI Hacc Hz E1).
+        - intros u2 i r2 u3 H2 Hi Ha. eapply steal_global_GP; eauto.
+        - intros Hn. rewrite Hn. lia. }
+      destruct r1 as [a|e|s]; [intros H; inv H; exact H1| |intros H; inv H; exact H1].
+      pose proof (GP_no_other_err _ _ _ _ _ H1). subst e.
+      destruct (GP_err_inv _ _ _ _ H1) as (A & B & C).
+      intros H2. eapply GP_chain; [exact H1|].
+      apply oom_GP'; [exact A| |exact H2]. cbn [us mk]. eapply req_ok_frame; eauto. }
+    destruct (r_local rq) as [local|] eqn:Eloc; [|apply Hsb].
+    destruct ((0 <? len) && (len <? ntrees (us x))) eqn:Econd; [|apply Hsb].
+    apply andb_true_iff in Econd. destruct Econd as (Hl0 & Hln). apply N.ltb_lt in Hl0, Hln.
+    assert (Hcl : class_locals (us x) (r_class rq) = Some len).
+    { subst len. destruct (class_locals (us x) (r_class rq)); [reflexivity|lia]. }
+    destruct (get_local g policy 2 (us x) (r_order rq) (r_class rq) local None true) as [rl u1] eqn:El.
+    destruct (get_local_GP _ _ _ _ _ _ HI Hok Eloc El) as (Hp & Fr).
+    destruct rl as [f1 c1|e t|s]; cbn [glr_post] in Hp.
+    - intros H; inv H. split; auto.
+    - destruct Hp as (Hp & _). pose proof Hp as (He & A & B). subst e.
+      assert (H1 : GP x (r_order rq) None (Err EMemory) u1) by (split; auto).
+      assert (Hok1 : req_ok (us (mk x u1)) rq None) by (cbn [us mk]; eapply req_ok_frame; eauto).
+      destruct (search_and_reserve g policy u1 (r_order rq) (r_class rq) local
+                  match t with Some s => s | None => start0 end) as [r2 u2] eqn:E2.
+      assert (H2 : GP (mk x u1) (r_order rq) None r2 u2).
+      { eapply search_and_reserve_GP; eauto; cbn [us mk].
+        - rewrite (frame_class_locals _ _ _ Fr). exact Hcl.
+        - rewrite (frame_ntrees _ _ Fr). lia. }
+      pose proof (GP_chain _ _ _ _ _ _ H1 H2) as H12.
+      destruct r2 as [a|e|s]; [intros H; inv H; exact H12| |intros H; inv H; exact H12].
+      pose proof (GP_no_other_err _ _ _ _ _ H12). subst e.
+      destruct (GP_err_inv _ _ _ _ H12) as (A2 & B2 & C2).
+      intros H3. eapply GP_chain; [exact H12|].
+      apply oom_GP'; [exact A2| |exact H3]. cbn [us mk]. eapply req_ok_frame; eauto.
+    - destruct Hp.
+  Qed.
+End GetInv.
+
+(* ============================================================================================== *)
+(* The property theorems for `llfree_get` *)
+Section GetTheorems.
+  Variable g : geom.
+  Variable policy : N -> N -> N -> pol.
+  Hypothesis WF : wf_geom g.
+  Hypothesis LF : lower_facts g.
+  Hypothesis PR : pol_refl_match policy.
+  Hypothesis PT : pol_demote_trans policy.
+  Notation TF := (TF g).
+
+  (* a slot index, if given, exists *)
+  Definition valid_local (u : upper) (rq : request) : Prop :=
+    forall lc, r_local rq = Some lc -> idx_ok u (r_class rq) lc.
+
+  Definition get_frame0 (frame : option N) : N := match frame with Some f => f | None => 0 end.
+
+  Lemma ghost_lift_get x frame rq r x' :
+    ghost_lift (fun u => llfree_get g policy u frame rq) x = (r, x') ->
+    exists u', llfree_get g policy (us x) frame rq = (r, u') /\ x' = mk x u'.
+  Proof.
+    unfold ghost_lift. destruct (llfree_get g policy (us x) frame rq) as [r0 u0]. intros H; inv H.
+    eexists; split; reflexivity.
+  Qed.
+
+  (* C09 for get: no panic, the invariant is preserved in every outcome, Err EArgument exactly when
+     `check` rejects (and then nothing changed); the only other error is EMemory *)
+  Theorem llfree_get_inv x frame rq r x' :
+    UpperInv g policy x -> valid_local (us x) rq ->
+    ghost_lift (fun u => llfree_get g policy u frame rq) x = (r, x') ->
+    (forall s, r <> Panic s) /\
+    UpperInv g policy x' /\
+    (r = Err EArgument <-> check g (us x) (get_frame0 frame) rq = Err EArgument) /\
+    (r = Err EArgument -> x' = x) /\
+    (forall e, r = Err e -> e = EMemory \/ e = EArgument).
+  Proof.
+    intros HI Hv H. destruct (ghost_lift_get _ _ _ _ _ H) as (u' & Hg & ->).
+    destruct (llfree_get_GP g policy WF LF PR PT x frame rq r u' HI Hv Hg) as [(Hc & -> & ->)|(Hc & Hp & Fr)].
+    - splits; try discriminate.
+      + rewrite mk_id. exact HI.
+      + tauto.
+      + intros _. apply mk_id.
+      + intros e He. inv He. auto.
+    - unfold get_frame0. rewrite Hc. unfold get_post in Hp.
+      destruct r as [[f c]|e|s]; [| |destruct Hp].
+      + destruct Hp as (A & _). splits; try discriminate; auto. split; discriminate.
+      + destruct Hp as (-> & A & _). splits; try discriminate; auto.
+        * split; discriminate.
+        * intros e He. inv He. auto.
+  Qed.
+
+  (* C02 lift: a successful get is a `spec_get` step of the ownership state on an enabled block (the
+     requested one for a targeted get); a failing get leaves the lower allocator untouched *)
+  Theorem llfree_get_spec x frame rq r x' :
+    UpperInv g policy x -> valid_local (us x) rq ->
+    ghost_lift (fun u => llfree_get g policy u frame rq) x = (r, x') ->
+    match r with
+    | Ok (f, c) =>
+        spec_get_enabled (abs g (low (us x))) f (r_order rq) = true /\
+        abs g (low (us x')) = spec_get g (abs g (low (us x))) f (r_order rq) /\
+        (forall f0, frame = Some f0 -> f = f0)
+    | Err _ => low (us x') = low (us x) /\ abs g (low (us x')) = abs g (low (us x))
+    | Panic _ => False
+    end.
+  Proof.
+    intros HI Hv H. destruct (ghost_lift_get _ _ _ _ _ H) as (u' & Hg & ->). cbn [us mk].
+    destruct (llfree_get_GP g policy WF LF PR PT x frame rq r u' HI Hv Hg) as [(Hc & -> & ->)|(Hc & Hp & Fr)].
+    - auto.
+    - unfold get_post in Hp. destruct r as [[f c]|e|s]; [| |exact Hp].
+      + destruct Hp as (_ & A & B & C & _). auto.
+      + destruct Hp as (_ & _ & A). rewrite A. auto.
+  Qed.
+
+  (* C15 (part): the tree of an allocated frame had at least 2^order visible free frames, i.e. free
+     frames not hidden by an offline operation (tree_free - off, which by U3 is the tree counter plus
+     the reservations on the tree) *)
+  Theorem llfree_get_visible x frame rq f c x' :
+    UpperInv g policy x -> valid_local (us x) rq ->
+    ghost_lift (fun u => llfree_get g policy u frame rq) x = (Ok (f, c), x') ->
+    pow2 (r_order rq) + nth (nn (f / TF)) (off x) 0 <= tree_free g (low (us x)) (f / TF).
+  Proof.
+    intros HI Hv H. destruct (ghost_lift_get _ _ _ _ _ H) as (u' & Hg & ->).
+    destruct (llfree_get_GP g policy WF LF PR PT x frame rq _ u' HI Hv Hg) as [(Hc & Hr & _)|(Hc & Hp & Fr)].
+    - discriminate.
+    - destruct Hp as (_ & _ & _ & _ & A). exact A.
+  Qed.
+
+  (* ... in particular nothing is allocated in a tree whose free frames are all hidden *)
+  Corollary llfree_get_not_hidden x frame rq f c x' t :
+    UpperInv g policy x -> valid_local (us x) rq ->
+    nth (nn t) (off x) 0 = tree_free g (low (us x)) t ->
+    ghost_lift (fun u => llfree_get g policy u frame rq) x = (Ok (f, c), x') ->
+    f / TF <> t.
+  Proof.
+    intros HI Hv Hoff H Ef. pose proof (llfree_get_visible _ _ _ _ _ _ HI Hv H) as Hb.
+    rewrite Ef, Hoff in Hb.
+    assert (0 < pow2 (r_order rq)) by (unfold pow2; apply N.neq_0_lt_0, N.pow_nonzero; lia). lia.
+  Qed.
+
+  (* the configuration is untouched: a valid request stays valid *)
+  Theorem llfree_get_frame x frame rq r x' :
+    ghost_lift (fun u => llfree_get g policy u frame rq) x = (r, x') ->
+    UpperInv g policy x -> valid_local (us x) rq ->
+    frame_rel (us x) (us x') /\ valid_local (us x') rq.
+  Proof.
+    intros H HI Hv. destruct (ghost_lift_get _ _ _ _ _ H) as (u' & Hg & ->). cbn [us mk].
+    assert (Fr : frame_rel (us x) u').
+    { destruct (llfree_get_GP g policy WF LF PR PT x frame rq r u' HI Hv Hg) as [(_ & _ & ->)|(_ & _ & Fr)];
+        [apply frame_refl|exact Fr]. }
+    split; [exact Fr|]. intros lc Hlc. eapply frame_idx_ok; eauto.
+  Qed.
+End GetTheorems.
+
+(* ============================================================================================== *)
+(* Non-vacuity: the model evaluated on a concrete allocator (geometry 9/2, 5000 frames = 3 trees, the
+   simple ordered policy, classes 0 and 1 with two slots each, default class 1).  `upper_invb` is the
+   executable twin of `UpperInv`. *)
+Module GetExamples.
+  Definition g := {| hord := 9; tlog := 2 |}.
+  Definition pol := ordered_policy (fun _ => 1).
+  Definition lower0 := {| frames := 0; bfs := []; ents := [] |}.
+  Definition u0 := match llfree_new g 5000 IFreeAll [(0,2);(1,2)] 1 lower0 [] (repeat slot_none 4) with
+                   | Ok u => u
+                   | _ => {| low := lower0; trees := []; locals := []; dflt := 0 |}
+                   end.
+  Definition x0 := ustate_new u0.
+  Definition rq o c l := {| r_order := o; r_class := c; r_local := l |}.
+  Definition get (x : ustate) (frame : option N) (r : request) :=
+    ghost_lift (fun u => llfree_get g pol u frame r) x.
+  Definition idx_okb (u : upper) (r : request) : bool :=
+    match r_local r, class_slots u (r_class r) with
+    | Some i, Some l => i <? N.of_nat (length l)
+    | _, _ => true
+    end.
+
+  (* hypotheses hold on the concrete instance *)
+  Example ex_hyps :
+    wf_geom g /\ pol_refl_match pol /\ pol_demote_trans pol /\
+    upper_invb g pol x0 = true /\ idx_okb u0 (rq 0 0 (Some 0)) = true.
+  Proof.
+    split; [unfold wf_geom, g; cbn; lia|]. split; [apply ordered_refl_match|].
+    split; [apply ordered_demote_trans|]. split; vm_compute; reflexivity.
+  Qed.
+
+  (* Ok outcome through a local slot (reserves a tree): C09 (invariant after), C02 (enabled, spec_get),
+     C13 (class), C15 (visible frames) *)
+  Example ex_get_ok :
+    exists f c x1, get x0 None (rq 0 0 (Some 0)) = (Ok (f, c), x1) /\
+      upper_invb g pol x1 = true /\
+      spec_get_enabled (abs g (low (us x0))) f 0 = true /\
+      abs g (low (us x1)) = spec_get g (abs g (low (us x0))) f 0 /\
+      c = 0 /\
+      (1 + nth (nn (f / TF g)) (off x0) 0 <=? tree_free g (low (us x0)) (f / TF g)) = true /\
+      present_slots (us x1) <> [].
+  Proof.
+    eexists _, _, _. split; [vm_compute; reflexivity|].
+    repeat split; try (vm_compute; reflexivity). vm_compute. discriminate.
+  Qed.
+
+  (* targeted get: the requested frame *)
+  Example ex_get_at :
+    exists c x1, get x0 (Some 100) (rq 2 1 None) = (Ok (100, c), x1) /\
+      upper_invb g pol x1 = true /\
+      abs g (low (us x1)) = spec_get g (abs g (low (us x0))) 100 2.
+  Proof. eexists _, _. split; [vm_compute; reflexivity|]. split; vm_compute; reflexivity. Qed.
+
+  (* rejected by `check`: Err EArgument, nothing changes *)
+  Example ex_get_earg :
+    get x0 None (rq 12 0 None) = (Err EArgument, x0) /\
+    check g (us x0) 0 (rq 12 0 None) = Err EArgument /\
+    get x0 (Some 3) (rq 1 0 None) = (Err EArgument, x0) /\
+    get x0 None (rq 0 5 None) = (Err EArgument, x0).
+  Proof. repeat split; vm_compute; reflexivity. Qed.
+
+  (* out of memory: two whole trees are taken, the third tree is partial (904 frames) *)
+  Definition x2 := snd (get (snd (get x0 None (rq 11 1 None))) None (rq 11 1 None)).
+  Example ex_get_emem :
+    exists x3, get x2 None (rq 11 1 (Some 1)) = (Err EMemory, x3) /\
+      upper_invb g pol x2 = true /\ upper_invb g pol x3 = true /\ low (us x3) = low (us x2).
+  Proof. eexists. split; [vm_compute; reflexivity|]. repeat split; vm_compute; reflexivity. Qed.
+
+  (* a tree taken offline hides its frames: nothing is allocated there although the lower allocator
+     has them free *)
+  Definition xoff := snd (ghost_change g x0 {| m_id := Some 1; m_class := None; m_free := 0 |}
+                                       {| c_class := None; c_op := Some OpOffline |}).
+  Example ex_get_hidden :
+    upper_invb g pol xoff = true /\
+    nth 1 (off xoff) 0 = tree_free g (low (us xoff)) 1 /\ tree_free g (low (us xoff)) 1 = 2048 /\
+    (exists x1, get xoff (Some 2048) (rq 0 1 None) = (Err EMemory, x1)) /\
+    (exists f c x1, get xoff None (rq 11 1 None) = (Ok (f, c), x1) /\ f / TF g = 0) /\
+    (exists x1, get (snd (get xoff None (rq 11 1 None))) None (rq 10 1 None) = (Err EMemory, x1)).
+  Proof.
+    split; [vm_compute; reflexivity|]. split; [vm_compute; reflexivity|]. split; [vm_compute; reflexivity|].
+    split; [eexists; vm_compute; reflexivity|].
+    split; [eexists _, _, _; split; vm_compute; reflexivity|].
+    eexists; vm_compute; reflexivity.
+  Qed.
+End GetExamples.
